@@ -247,9 +247,10 @@ def _ival_mul(a, b, c, d):
 
 class SInt:
     """Python int stand-in.  e is a 64-bit BV (with tracked interval) or a z3 Int."""
-    __slots__ = ('e', 'lo', 'hi', 'bv')
+    __slots__ = ('e', 'lo', 'hi', 'bv', 'prov')
 
     def __init__(self, e, lo=None, hi=None):
+        self.prov = None
         self.bv = z3.is_bv(e)
         if self.bv:
             if lo is None or hi is None or lo < -LIM or hi > LIM:
@@ -297,6 +298,12 @@ class SInt:
         if not self.bv:
             return self
         return SInt(z3.BV2Int(self.e, True), self.lo, self.hi)
+
+    def to_bv(self, lo, hi):
+        """Int-sorted value known (by the caller's range check) to lie in [lo, hi] -> BV"""
+        if self.bv:
+            return self
+        return SInt(z3.Int2BV(self.e, W) if lo >= 0 else z3.Int2BV(self.e, W), lo, hi)
 
     def as_real_expr(self):
         return z3.ToReal(self.to_int_sort().e)
